@@ -189,7 +189,7 @@ static void htp_gzip_decompressor_end(htp_decompressor_gzip_t *drec) {
  * @param[in] d
  * @return HTP_OK on success, HTP_ERROR or some other negative integer on failure.
  */
-htp_status_t htp_gzip_decompressor_decompress(htp_decompressor_t *drec1, htp_tx_data_t *d) {
+static htp_status_t htp_gzip_decompressor_decompress_ex(htp_decompressor_t *drec1, htp_tx_data_t *d, int keep_back) {
     size_t consumed = 0;
     int rc = 0;
     htp_status_t callback_rc;
@@ -210,6 +210,41 @@ htp_status_t htp_gzip_decompressor_decompress(htp_decompressor_t *drec1, htp_tx_
         }
 
         return HTP_OK;
+    }
+
+    // The first bytes of a stream decide how it is decoded: when inflate rejects
+    // them the decompressor is restarted for another format, or gives up and
+    // passes the data through. Both work on the chunk in hand only, so as long as
+    // nothing has been given to inflate, very small chunks are kept back until
+    // there is enough to tell (or the body ends).
+    if (keep_back && (drec->restart == 0) && (drec->stream.total_in == 0) &&
+            ((drec->zlib_initialized == HTP_COMPRESSION_GZIP) || (drec->zlib_initialized == HTP_COMPRESSION_DEFLATE))) {
+        if ((d->data != NULL) && (drec->header_len + d->len <= sizeof (drec->header))) {
+            memcpy(drec->header + drec->header_len, d->data, d->len);
+            drec->header_len += d->len;
+            return HTP_OK;
+        }
+
+        if (drec->header_len > 0) {
+            // Decompress what was kept back together with the chunk in hand.
+            size_t kept = drec->header_len;
+            size_t len = (d->data != NULL) ? d->len : 0;
+            unsigned char *joined = malloc(kept + len);
+            if (joined == NULL) return HTP_ERROR;
+            memcpy(joined, drec->header, kept);
+            if (len > 0) memcpy(joined + kept, d->data, len);
+            drec->header_len = 0;
+
+            htp_tx_data_t dj;
+            dj.tx = d->tx;
+            dj.data = joined;
+            dj.len = kept + len;
+            dj.is_last = 0;
+            htp_status_t rcj = htp_gzip_decompressor_decompress_ex(drec1, &dj, 0);
+            free(joined);
+            if ((rcj != HTP_OK) || (d->data != NULL)) return rcj;
+            // What is left of d is the end of the body (or a gap).
+        }
     }
 
     if (d->data == NULL) {
@@ -429,6 +464,10 @@ restart:
     }
 
     return HTP_OK;
+}
+
+htp_status_t htp_gzip_decompressor_decompress(htp_decompressor_t *drec, htp_tx_data_t *d) {
+    return htp_gzip_decompressor_decompress_ex(drec, d, 1);
 }
 
 /**
